@@ -9,8 +9,23 @@ NOT_DECIDED = "per-tick liveness over generated programs (runtime)"
 
 
 def check(ctx):
+    done_need_resolves_in_named_framer(ctx)
     _framing.per_tick_over_actives(ctx)
     _framing.aux_lifetime(ctx)
     # an auxiliary is exited through Framer.exitAll/deactivate and re-entered through activate: the outline state rules (C05)
     # decide that a later activation starts from an intact outline
     _framing.outline_state(ctx)
+
+
+def done_need_resolves_in_named_framer(ctx):
+    """`if .. in frame F in framer G is done` means frame F *of framer G*: the frame name is resolved in G's frame registry"""
+    import ast as _ast
+    from ..model import call_name as _cn, src as _src
+    ctx.rule("T6-namedframe", "NeedDoneAux._resolve resolves the frame with framing.resolveFrameOfFramer(frame, framer, ..)")
+    f = ctx.cls("needing", "NeedDoneAux").own_method("_resolve")
+    calls = [c for c in _ast.walk(f) if isinstance(c, _ast.Call) and (_cn(c) or "").split(".")[-1] in ("resolveFrame", "resolveFrameOfFramer")]
+    ok = bool(calls) and all((_cn(c) or "").split(".")[-1] == "resolveFrameOfFramer" and len(c.args) >= 2 and _src(c.args[0]) == "frame"
+                             and _src(c.args[1]) == "framer" for c in calls)
+    ctx.check(ok, "T6-namedframe", calls[0] if calls else f, "NeedDoneAux._resolve: resolveFrameOfFramer(frame, framer, ..)",
+              "resolving the name in the registry that happens to be current (the framer that contains the condition) inspects "
+              "that framer's own frame of the same name: the any/all/named outcomes no longer follow the named frame's auxiliaries")
